@@ -49,6 +49,7 @@ class Contract:
         self.allocates = kw.pop("allocates", None)    # None: decided by the verifier (does any normal path allocate?)
         self.havoc_all = kw.pop("havoc_all", False)    # runs foreign code synchronously (coroutine.close): everything may change, no time passes
         self.inline = kw.pop("inline", False)        # verify here, but callers inline the body
+        self.assumed = kw.pop("assumed", False)      # used by callers, NOT verified against the body (listed as assumption)
         self.no_invariants = kw.pop("no_invariants", False)
         self.inv_scope = kw.pop("inv_scope", None)     # None = all; else list of 'Class' / 'Class.name' this function relies on / re-establishes
         self.props = _lst(kw.pop("props", []))       # properties this contract serves
